@@ -86,8 +86,9 @@ def setter(graphs, op):
         return False
     v = vals[a % len(vals)]
     if k == 0:
-        if not v.is_initializer():
-            v.name = f"c13_renamed_{b}"
+        # (renaming an initializer renames its tensor object too, which a clone shares with its original by design:
+        # the tensor's own name is masked in the snapshot below, the serialized form of the other copy must not change)
+        v.name = f"c13_renamed_{b}_{a}"
         return True
     if k == 1:
         v.type = ir.TensorType(ir.DataType.INT8)
@@ -376,6 +377,7 @@ def execute(case):
         for v in _values_of(other_graphs):
             rec = snapshot.snap_value(uo, v, with_ids=False)
             uses = tuple((uo.idx(n), i) for n, i in v.uses() if id(n) in local_nodes)
+            rec = rec[:4] + ((rec[4][0],) if rec[4] else None,) + rec[5:]  # shared tensor object: identity yes, own name no
             out.append(rec[:-1] + (uses,))
         return out
 
